@@ -101,3 +101,13 @@ PROPS = {
             "technique": "Lean 4 theorems over the genesis model + export / re-import differential on the real application",
             "explanation": "Lean: Props/C16, Genesis/Model. Stream: genesis."},
 }
+
+# Lean modules stating what the model assumes about the facts regenerated from /repo's sources on
+# every run (extract/ -> lean/Tibc/Generated/Facts.lean); built together with the property's theorems.
+EXPECT = {
+    "C17": ["Tibc.Expect.Bsc"],
+    "C18": ["Tibc.Expect.Eth"],
+    "C20": ["Tibc.Expect.Bsc", "Tibc.Expect.Eth"],
+}
+for _p in ("C01", "C02", "C03", "C04", "C05", "C06", "C09", "C10", "C11", "C13", "C16", "C19"):
+    EXPECT[_p] = ["Tibc.Expect.Packet"]
